@@ -160,9 +160,657 @@ fn ty_json(t: &LuaType) -> Value {
     }
 }
 
+
+// ---------------------------------------------------------------------------------------------
+// generator of annotation texts in the sub-grammar
+// ---------------------------------------------------------------------------------------------
+
+#[derive(Clone, Debug)]
+enum G {
+    Prim(&'static str),
+    Str(String),
+    Int(i64),
+    Bool(bool),
+    Ref(&'static str),
+    Array(Box<G>),
+    Nullable(Box<G>),
+    Union(Vec<G>),
+    Map(Vec<G>),
+    Rec(Vec<(GKey, bool, G)>),
+    Fun(Vec<(String, bool, Option<G>)>),
+}
+
+#[derive(Clone, Debug)]
+enum GKey {
+    Name(String),
+    Int(i64),
+    Quoted(String),
+}
+
+const PRIMS: &[&str] = &[
+    "string", "integer", "number", "boolean", "table", "function", "thread", "userdata", "nil", "any", "unknown", "never",
+    "self", "io", "global",
+];
+const COMMON_PRIMS: &[&str] = &["string", "integer", "number", "boolean", "table", "function", "thread", "userdata"];
+const REFS: &[&str] = &["Cls0", "Cls1", "ns.Cls2", "ClsF", "AliS", "AliU", "AliC", "Enm0", "EnmE"];
+const PLAIN_STRS: &[&str] = &["a", "b", "x y", "", "in", "it's", "0", "--", "]]", "a|b", "é", "中", "😀", "(", "?", "[]", " "];
+const ESC_STRS: &[&str] = &["a\"b", "\"", "a\\b", "\\", "tab\there", "nl\nx", "cr\rx", "\u{1b}[0m", "\u{1b}1", "\u{7}", "\u{7f}", "\u{85}x", "\\n", "a\\\"", "\\\\"];
+const KEY_NAMES: &[&str] = &["a", "b", "x", "name", "_priv", "k1", "A_b"];
+const ODD_KEYS: &[&str] = &[
+    "x y", "in", "readonly", "true", "false", "or", "and", "as", "else", "extends", "keyof", "1a", "", "a.b", "a-b", "é", "a b c",
+    "fun", "table", "nil", "a\"b", "a'b", "a\\b", "?", "a:b", "]", "\t", "中文",
+];
+const PARAM_NAMES: &[&str] = &["a", "b", "x", "cb", "self", "_", "n1"];
+
+fn gen_leaf(rng: &mut Rng, mode: usize) -> G {
+    match rng.below(12) {
+        0..=3 => G::Prim(*rng.pick(COMMON_PRIMS)),
+        4 => {
+            if mode == 3 {
+                G::Prim(*rng.pick(PRIMS))
+            } else {
+                G::Prim(*rng.pick(COMMON_PRIMS))
+            }
+        }
+        5 | 6 => G::Ref(*rng.pick(REFS)),
+        7 | 8 => {
+            if mode == 2 && rng.chance(1, 2) {
+                G::Str(rng.pick(ESC_STRS).to_string())
+            } else {
+                G::Str(rng.pick(PLAIN_STRS).to_string())
+            }
+        }
+        9 | 10 => {
+            let v: i64 = match rng.below(8) {
+                0 => 0,
+                1 => -1,
+                2 => i64::MAX,
+                3 => -(i64::MAX),
+                4 => -(rng.below(1000) as i64),
+                _ => rng.below(100) as i64,
+            };
+            G::Int(v)
+        }
+        _ => G::Bool(rng.chance(1, 2)),
+    }
+}
+
+fn gen_key(rng: &mut Rng, mode: usize) -> GKey {
+    let odd = mode == 1 || mode == 2;
+    match rng.below(10) {
+        0 | 1 => GKey::Int(rng.below(5) as i64),
+        2 if odd => GKey::Quoted(rng.pick(ODD_KEYS).to_string()),
+        3 if odd => GKey::Quoted(rng.pick(ODD_KEYS).to_string()),
+        4 if odd => GKey::Quoted(rng.pick(KEY_NAMES).to_string()),
+        _ => GKey::Name(rng.pick(KEY_NAMES).to_string()),
+    }
+}
+
+/// mode: 0 plain, 1 odd record keys, 2 escapes in literals/keys, 3 all primitives incl. any/unknown/never,
+/// 4 array-heavy (nested arrays of unions / optionals / functions), 5 wide (many members)
+fn gen_g(rng: &mut Rng, depth: usize, mode: usize) -> G {
+    if depth == 0 || rng.chance(1, 4) {
+        return gen_leaf(rng, mode);
+    }
+    let pick = if mode == 4 { rng.below(7) } else { rng.below(12) };
+    match pick {
+        0 | 1 | 7 => G::Array(Box::new(gen_g(rng, depth - 1, mode))),
+        2 | 8 => G::Nullable(Box::new(gen_g(rng, depth - 1, mode))),
+        3 | 4 | 9 => {
+            let n = if mode == 5 { rng.range(2, 9) } else { rng.range(2, 4) };
+            G::Union((0..n).map(|_| gen_g(rng, depth - 1, mode)).collect())
+        }
+        5 => {
+            let n = if rng.chance(1, 8) { rng.range(1, 3) } else { 2 };
+            G::Map((0..n).map(|_| gen_g(rng, depth - 1, mode)).collect())
+        }
+        6 | 10 => {
+            let n = rng.below(if mode == 5 { 10 } else { 4 });
+            G::Fun(
+                (0..n)
+                    .map(|i| {
+                        let name = format!("{}{}", rng.pick(PARAM_NAMES), i);
+                        let ty = if rng.chance(1, 6) { None } else { Some(gen_g(rng, depth - 1, mode)) };
+                        (name, rng.chance(1, 5), ty)
+                    })
+                    .collect(),
+            )
+        }
+        _ => {
+            let n = rng.below(if mode == 5 { 10 } else { 4 });
+            G::Rec((0..n).map(|_| (gen_key(rng, mode), rng.chance(1, 4), gen_g(rng, depth - 1, mode))).collect())
+        }
+    }
+}
+
+fn quote_lit(s: &str) -> Option<String> {
+    // the annotation syntax has no escapes of its own for quotes: choose a delimiter that does not occur;
+    // backslashes and control characters are written as Lua escapes
+    let q = if !s.contains('"') {
+        '"'
+    } else if !s.contains('\'') {
+        '\''
+    } else {
+        return None;
+    };
+    let mut o = String::new();
+    o.push(q);
+    for c in s.chars() {
+        match c {
+            '\\' => o.push_str("\\\\"),
+            '\n' => o.push_str("\\n"),
+            '\r' => o.push_str("\\r"),
+            '\t' => o.push_str("\\t"),
+            c if (c as u32) < 32 || c as u32 == 127 => o.push_str(&format!("\\x{:02X}", c as u32)),
+            c => o.push(c),
+        }
+    }
+    o.push(q);
+    Some(o)
+}
+
+fn is_ident(s: &str) -> bool {
+    let mut cs = s.chars();
+    match cs.next() {
+        Some(c) if c.is_ascii_alphabetic() || c == '_' => cs.all(|c| c.is_ascii_alphanumeric() || c == '_'),
+        _ => false,
+    }
+}
+
+/// annotation text of a generated type, parenthesised where the grammar needs it; `ws`: sprinkle blanks
+fn g_text(g: &G, rng: &mut Rng, ws: bool) -> String {
+    let sp = |rng: &mut Rng| if ws && rng.chance(1, 3) { " " } else { "" };
+    match g {
+        G::Prim(p) => p.to_string(),
+        G::Str(s) => quote_lit(s).unwrap_or_else(|| "\"q\"".to_string()),
+        G::Int(i) => i.to_string(),
+        G::Bool(b) => b.to_string(),
+        G::Ref(r) => r.to_string(),
+        G::Array(b) => {
+            let inner = g_text(b, rng, ws);
+            let needs = matches!(**b, G::Nullable(_) | G::Union(_) | G::Fun(_)) || matches!(**b, G::Int(i) if i < 0);
+            if needs || (ws && rng.chance(1, 10)) { format!("({}{}{})[]", sp(rng), inner, sp(rng)) } else { format!("{}[]", inner) }
+        }
+        G::Nullable(b) => {
+            let inner = g_text(b, rng, ws);
+            let needs = matches!(**b, G::Union(_) | G::Fun(_) | G::Nullable(_));
+            if needs { format!("({})?", inner) } else { format!("{}?", inner) }
+        }
+        G::Union(ms) => {
+            let parts: Vec<String> = ms
+                .iter()
+                .map(|m| {
+                    let t = g_text(m, rng, ws);
+                    if matches!(m, G::Nullable(_) | G::Union(_) | G::Fun(_)) { format!("({})", t) } else { t }
+                })
+                .collect();
+            let sep = if ws && rng.chance(1, 2) { " | " } else { "|" };
+            parts.join(sep)
+        }
+        G::Map(ps) => {
+            let parts: Vec<String> = ps.iter().map(|m| g_text(m, rng, ws)).collect();
+            format!("table<{}{}>", sp(rng), parts.join(if ws { ", " } else { "," }))
+        }
+        G::Rec(fs) => {
+            let parts: Vec<String> = fs
+                .iter()
+                .map(|(k, opt, t)| {
+                    let ks = match k {
+                        GKey::Name(n) => n.clone(),
+                        GKey::Int(i) => format!("[{}]", i),
+                        GKey::Quoted(s) => match quote_lit(s) {
+                            Some(q) => format!("[{}]", q),
+                            None => "qq".to_string(),
+                        },
+                    };
+                    format!("{}{}: {}", ks, if *opt { "?" } else { "" }, g_text(t, rng, ws))
+                })
+                .collect();
+            if parts.is_empty() { "{}".to_string() } else { format!("{{ {} }}", parts.join(", ")) }
+        }
+        G::Fun(ps) => {
+            let parts: Vec<String> = ps
+                .iter()
+                .map(|(n, opt, t)| match t {
+                    Some(t) => format!("{}{}: {}", n, if *opt { "?" } else { "" }, g_text(t, rng, ws)),
+                    None => format!("{}{}", n, if *opt { "?" } else { "" }),
+                })
+                .collect();
+            format!("fun({})", parts.join(", "))
+        }
+    }
+}
+
+/// hand-written witnesses and past failures (always first)
+const FIXED: &[&str] = &[
+    "string",
+    "(string?)[]",
+    "{['x y']: string}",
+    "(-1)[]",
+    "(string|integer)?[]",
+    "((string|integer)?)[]",
+    "(fun(a: string))?[]",
+    "((fun(a: string))?)[]",
+    "fun(a: string)[]",
+    "(fun(a: string)|nil)[][]",
+    "'a\"b'",
+    "{['a\"b']: integer}",
+    "any|nil",
+    "never|nil",
+    "unknown|string",
+    "table",
+    "table?",
+    "AliU?",
+    "AliS?",
+    "AliC?",
+    "{ a: string, ['in']: integer, ['readonly']: boolean }",
+    "{ ['readonly']: boolean }",
+    "{ ['1a']: boolean, [''] : string }",
+    "{a?: string, [1]: integer}",
+    "{}",
+    "table<string, integer?>",
+    "table<string>",
+    "1|2|true|\"x\"",
+    "integer|1",
+    "boolean|true",
+    "string|boolean|Cls0",
+    "nil|string|Cls0",
+    "9223372036854775807",
+    "-9223372036854775807",
+    "'a\\\\b'",
+    "'a\\nb'",
+    "\"\\27[0m\"",
+    "\"\\271\"",
+    "{a: string}|{a: string}",
+    "table<string,integer>|table<string,integer>",
+    "string[][][][][][][][][][][]",
+    "string[][][][][][][][][][][][]",
+    "((((string|integer)[]|boolean)[]|number)[]|thread)[]",
+    "{ a: { b: { c: { d: string } } } }",
+    "{ a: { b: { c: { d: { e: string } } } } }",
+    "string|integer|number|boolean|table|thread|userdata",
+    "(string|integer|number|boolean|table|thread|userdata)[]",
+    "ClsF",
+    "ClsF[]",
+    "Enm0",
+    "ns.Cls2?",
+    "fun(a: string, b?: integer)",
+    "fun()",
+    "(fun())?",
+    "function?",
+    "fun(cb: fun(x: integer), y)",
+    "[string, integer]",
+    "fun(): string",
+    "string  |   integer",
+    "( string ) [ ]",
+];
+
+// ---------------------------------------------------------------------------------------------
+// the property oracle (implementation only)
+// ---------------------------------------------------------------------------------------------
+
+/// canonical form for "same type modulo union member order": union members sorted by their canonical JSON text
+fn canon(v: &Value) -> Value {
+    match v {
+        Value::Object(m) => {
+            let mut o = serde_json::Map::new();
+            for (k, x) in m {
+                if k == "u" {
+                    continue; // the variant follows from the members
+                }
+                o.insert(k.clone(), canon(x));
+            }
+            if m.get("k").and_then(|k| k.as_str()) == Some("union") {
+                if let Some(Value::Array(ms)) = o.get("ms").cloned() {
+                    let mut ss: Vec<(String, Value)> = ms.into_iter().map(|x| (x.to_string(), x)).collect();
+                    ss.sort_by(|a, b| a.0.cmp(&b.0));
+                    o.insert("ms".into(), Value::Array(ss.into_iter().map(|x| x.1).collect()));
+                }
+            }
+            Value::Object(o)
+        }
+        Value::Array(a) => Value::Array(a.iter().map(canon).collect()),
+        _ => v.clone(),
+    }
+}
+
+fn has_kind(v: &Value, pred: &dyn Fn(&serde_json::Map<String, Value>) -> bool) -> bool {
+    match v {
+        Value::Object(m) => pred(m) || m.values().any(|x| has_kind(x, pred)),
+        Value::Array(a) => a.iter().any(|x| has_kind(x, pred)),
+        _ => false,
+    }
+}
+
+fn kind_of(m: &serde_json::Map<String, Value>) -> &str {
+    m.get("k").and_then(|k| k.as_str()).unwrap_or("")
+}
+
+fn next_level(l: usize) -> usize {
+    (l + 1).min(4)
+}
+fn max_items(l: usize) -> usize {
+    [500, 8, 4, 2, 2][l]
+}
+fn max_union_items(l: usize) -> usize {
+    [500, 6, 4, 2, 2][l]
+}
+
+/// the renderer's size limits (level = 0 Documentation .. 4 Minimal; depth = nesting of write_type)
+fn fits(t: &LuaType, lvl: usize, depth: usize) -> bool {
+    if depth >= 12 {
+        return false;
+    }
+    let nl = next_level(lvl);
+    match t {
+        LuaType::Array(a) => fits(a.get_base(), nl, depth + 1),
+        LuaType::TableGeneric(ps) => lvl < 4 && ps.len() <= max_items(lvl) && ps.iter().all(|p| fits(p, nl, depth + 1)),
+        LuaType::Object(o) => {
+            lvl < 4
+                && o.get_fields().len() <= max_items(lvl)
+                && o.get_fields().values().all(|p| fits(p, nl, depth + 1))
+                && o.get_index_access().iter().all(|(k, v)| fits(k, nl, depth + 1) && fits(v, nl, depth + 1))
+        }
+        LuaType::DocFunction(f) => {
+            lvl < 4 && f.get_params().iter().all(|(_, p)| p.as_ref().map(|p| fits(p, nl, depth + 1)).unwrap_or(true))
+        }
+        LuaType::Union(u) => {
+            let ms = u.into_vec();
+            let nn = ms.iter().filter(|m| !m.is_nil()).count();
+            nn <= max_union_items(lvl) && ms.iter().all(|m| fits(m, nl, depth + 1))
+        }
+        _ => true,
+    }
+}
+
+#[derive(PartialEq, Debug)]
+enum Verdict {
+    Same,
+    Differs,
+    /// outside the property: display-only syntax, truncated, invalid annotation
+    Skip(&'static str),
+}
+
+fn display_only(j: &Value) -> Option<&'static str> {
+    if has_kind(j, &|m| kind_of(m) == "tuple") {
+        return Some("tuple");
+    }
+    if has_kind(j, &|m| kind_of(m) == "fun" && m.get("ret") != Some(&json!({"k": "prim", "p": "nil"}))) {
+        return Some("function-with-return");
+    }
+    if has_kind(j, &|m| kind_of(m) == "fun" && m.get("variadic") == Some(&json!(true))) {
+        return Some("function-variadic");
+    }
+    if has_kind(j, &|m| kind_of(m) == "other" || kind_of(m) == "tableconst") {
+        return Some("outside-sub-grammar");
+    }
+    None
+}
+
+/// render -> read back -> compare, for one type value
+fn roundtrip(ws: &mut Ws, t0: &LuaType) -> (Verdict, String, Option<LuaType>) {
+    let j0 = ty_json(t0);
+    if let Some(why) = display_only(&j0) {
+        return (Verdict::Skip(why), String::new(), None);
+    }
+    if matches!(t0, LuaType::Table) {
+        return (Verdict::Skip("top-level-table"), String::new(), None);
+    }
+    if !fits(t0, 0, 0) {
+        return (Verdict::Skip("over-size-limit"), String::new(), None);
+    }
+    let s = ws.render(t0);
+    if s.contains('\n') {
+        return (Verdict::Skip("expanded-class-view"), s, None);
+    }
+    let t1 = ws.ty(&s);
+    let same = match &t1 {
+        Some(t1) => canon(&ty_json(t1)) == canon(&j0),
+        None => false,
+    };
+    (if same { Verdict::Same } else { Verdict::Differs }, s, t1)
+}
+
+fn subterms<'a>(t: &'a LuaType, out: &mut Vec<LuaType>) {
+    out.push(t.clone());
+    match t {
+        LuaType::Array(a) => subterms(a.get_base(), out),
+        LuaType::TableGeneric(ps) => ps.iter().for_each(|p| subterms(p, out)),
+        LuaType::Object(o) => {
+            let mut fs: Vec<_> = o.get_fields().iter().collect();
+            fs.sort_by(|a, b| a.0.cmp(b.0));
+            fs.into_iter().for_each(|(_, p)| subterms(p, out))
+        }
+        LuaType::DocFunction(f) => f.get_params().iter().for_each(|(_, p)| {
+            if let Some(p) = p {
+                subterms(p, out)
+            }
+        }),
+        LuaType::Union(u) => u.into_vec().iter().for_each(|p| subterms(p, out)),
+        _ => {}
+    }
+}
+
+fn json_size(v: &Value) -> usize {
+    match v {
+        Value::Object(m) => 1 + m.values().map(json_size).sum::<usize>(),
+        Value::Array(a) => a.iter().map(json_size).sum::<usize>(),
+        _ => 0,
+    }
+}
+
+fn short_kind(t: &LuaType) -> String {
+    match t {
+        LuaType::Union(u) => {
+            let ms = u.into_vec();
+            if ms.iter().any(|m| m.is_nil()) { "optional".into() } else { "union".into() }
+        }
+        LuaType::DocIntegerConst(i) => if *i < 0 { "negative-integer".into() } else { "integer-literal".into() },
+        LuaType::DocStringConst(_) => "string-literal".into(),
+        LuaType::DocBooleanConst(_) => "boolean-literal".into(),
+        LuaType::DocFunction(_) => "function".into(),
+        LuaType::Array(_) => "array".into(),
+        LuaType::Object(_) => "record".into(),
+        LuaType::TableGeneric(_) => "map".into(),
+        LuaType::Ref(_) => "reference".into(),
+        t => prim_name(t).map(|p| format!("primitive-{}", p)).unwrap_or_else(|| "other".into()),
+    }
+}
+
+fn key_class(s: &str) -> &'static str {
+    if s.contains('"') {
+        "with-double-quote"
+    } else if s.chars().any(|c| c == '\\' || c.is_control()) {
+        "with-escape"
+    } else if matches!(s, "true" | "false" | "keyof" | "extends" | "as" | "in" | "and" | "or" | "else" | "readonly") {
+        "doc-keyword"
+    } else if !is_ident(s) {
+        "not-an-identifier"
+    } else {
+        "identifier"
+    }
+}
+
+/// signature of a failing case: computed from the smallest sub-type that fails on its own
+fn signature(ws: &mut Ws, t0: &LuaType) -> (String, LuaType) {
+    let mut subs = Vec::new();
+    subterms(t0, &mut subs);
+    subs.sort_by_key(|t| json_size(&ty_json(t)));
+    let mut culprit = t0.clone();
+    for s in subs {
+        if roundtrip(ws, &s).0 == Verdict::Differs {
+            culprit = s;
+            break;
+        }
+    }
+    // strings (literals and record keys) whose escaping can derail the lexer anywhere after them
+    let mut strs: Vec<String> = Vec::new();
+    {
+        let mut subs = Vec::new();
+        subterms(&culprit, &mut subs);
+        for t in &subs {
+            match t {
+                LuaType::DocStringConst(s) => strs.push(s.to_string()),
+                LuaType::Object(o) => {
+                    for k in o.get_fields().keys() {
+                        if let LuaMemberKey::Name(n) = k {
+                            strs.push(n.to_string());
+                        }
+                    }
+                }
+                _ => {}
+            }
+        }
+    }
+    if strs.iter().any(|s| s.contains('"')) {
+        return ("string-with-double-quote".to_string(), culprit);
+    }
+    if strs.iter().any(|s| {
+        let cs: Vec<char> = s.chars().collect();
+        cs.windows(2).any(|w| w[0] == '\u{1b}' && w[1].is_ascii_digit())
+    }) {
+        return ("string-with-esc-before-digit".to_string(), culprit);
+    }
+    let sig = match &culprit {
+        LuaType::DocStringConst(s) => {
+            if s.contains('"') {
+                "string-literal-with-double-quote".to_string()
+            } else if s.chars().any(|c| c == '\\' || c.is_control()) {
+                "string-literal-with-escape".to_string()
+            } else {
+                "string-literal".to_string()
+            }
+        }
+        LuaType::Array(a) => format!("array-of-{}", short_kind(a.get_base())),
+        LuaType::Object(o) => {
+            let mut classes: Vec<&str> = o
+                .get_fields()
+                .keys()
+                .map(|k| match k {
+                    LuaMemberKey::Name(s) => key_class(s),
+                    LuaMemberKey::Integer(i) => if *i < 0 { "negative-integer" } else { "integer" },
+                    _ => "other",
+                })
+                .filter(|c| *c != "identifier" && *c != "integer")
+                .collect();
+            classes.sort();
+            classes.dedup();
+            if classes.is_empty() { "record".to_string() } else { format!("record-key-{}", classes.join("+")) }
+        }
+        LuaType::Union(u) => {
+            let ms = u.into_vec();
+            let js: Vec<String> = ms.iter().map(|m| canon(&ty_json(m)).to_string()).collect();
+            let mut d = js.clone();
+            d.sort();
+            d.dedup();
+            if ms.iter().any(|m| matches!(m, LuaType::Any | LuaType::Unknown | LuaType::Never)) {
+                "union-with-any-unknown-never".to_string()
+            } else if d.len() < js.len() {
+                "union-with-duplicate-members".to_string()
+            } else {
+                let mut ks: Vec<String> = ms.iter().map(short_kind).collect();
+                ks.sort();
+                ks.dedup();
+                format!("union-of-{}", ks.join("+"))
+            }
+        }
+        other => short_kind(other),
+    };
+    (sig, culprit)
+}
+
+fn gen_case(rng: &mut Rng) -> (String, usize) {
+    let mode = rng.below(6);
+    let depth = if mode == 4 { rng.range(2, 5) } else { rng.range(1, 4) };
+    let g = gen_g(rng, depth, mode);
+    let ws = rng.chance(1, 5);
+    let mut r2 = rng.fork();
+    (g_text(&g, &mut r2, ws), mode)
+}
+
 fn main() {
     let args = Args::parse();
+    let seed = args.u64("seed", 1);
+    let n = args.usize("n", 100);
+    let mut rng = Rng::new(seed ^ 0xC17);
     match args.cmd.as_str() {
+        "corr" => {
+            let mut ws = Ws::new();
+            let texts: Vec<String> =
+                FIXED.iter().map(|s| s.to_string()).chain((0..n).map(|_| gen_case(&mut rng).0)).collect();
+            for text in texts {
+                let Some(t0) = ws.ty(&text) else {
+                    println!("{}", json!({"text": cps(&text), "panic": true}));
+                    continue;
+                };
+                let r = ws.render(&t0);
+                let t1 = if r.contains('\n') { None } else { ws.ty(&r) };
+                println!(
+                    "{}",
+                    json!({"text": cps(&text), "t0": ty_json(&t0), "r": cps(&r), "t1": t1.as_ref().map(ty_json),
+                           "fits": fits(&t0, 0, 0)})
+                );
+            }
+        }
+        "search" => {
+            let mut ws = Ws::new();
+            let mut out: Vec<Value> = Vec::new();
+            let mut distinct = HashSet::new();
+            let mut skips: BTreeMap<String, usize> = BTreeMap::new();
+            let mut modes = [0usize; 6];
+            let mut kinds: BTreeMap<String, usize> = BTreeMap::new();
+            let (mut cases, mut checked, mut panics) = (0usize, 0usize, 0usize);
+            let texts: Vec<(String, usize)> =
+                FIXED.iter().map(|s| (s.to_string(), 0)).chain((0..n).map(|_| gen_case(&mut rng))).collect();
+            for (text, mode) in texts {
+                cases += 1;
+                modes[mode] += 1;
+                let Some(t0) = ws.ty(&text) else {
+                    panics += 1;
+                    out.push(json!({"signature": "analyzer-panic", "what": "the analyzer panicked on the annotation", "text": text}));
+                    continue;
+                };
+                if matches!(t0, LuaType::Unknown) {
+                    *skips.entry("annotation-is-unknown".into()).or_default() += 1;
+                    continue;
+                }
+                let (v, s, t1) = roundtrip(&mut ws, &t0);
+                match v {
+                    Verdict::Skip(why) => {
+                        *skips.entry(why.into()).or_default() += 1;
+                    }
+                    Verdict::Same => {
+                        checked += 1;
+                        let j = ty_json(&t0);
+                        *kinds.entry(short_kind(&t0)).or_default() += 1;
+                        if json_size(&j) > 1 {
+                            distinct.insert(canon(&j).to_string());
+                        }
+                    }
+                    Verdict::Differs => {
+                        checked += 1;
+                        distinct.insert(canon(&ty_json(&t0)).to_string());
+                        let (sig, culprit) = signature(&mut ws, &t0);
+                        let cs = ws.render(&culprit);
+                        let ct1 = ws.ty(&cs);
+                        out.push(json!({
+                            "signature": sig,
+                            "what": format!("type {:?} renders as {:?}, which reads back as a different type (smallest failing part renders as {:?})", text, s, cs),
+                            "text": text, "rendered": s, "t0": ty_json(&t0), "t1": t1.as_ref().map(ty_json),
+                            "culprit": ty_json(&culprit), "culprit_rendered": cs, "culprit_back": ct1.as_ref().map(ty_json),
+                        }));
+                    }
+                }
+            }
+            for v in &out {
+                println!("{}", v);
+            }
+            println!(
+                "{}",
+                json!({"summary": {"cases": cases, "checked": checked, "distinct_nontrivial": distinct.len(), "panics": panics,
+                                   "skipped": skips, "by_mode": modes, "by_top_kind": kinds, "violations": out.len()}})
+            );
+        }
         "parse" | "one" => {
             let text = args.str("text", "string");
             let mut ws = Ws::new();
@@ -170,19 +818,18 @@ fn main() {
             match t0 {
                 None => println!("{}", json!({"text": text, "panic": true})),
                 Some(t0) => {
-                    let s = ws.render(&t0);
-                    let t1 = ws.ty(&s);
-                    let same = t1.as_ref().map(|t| *t == t0);
+                    let (v, s, t1) = roundtrip(&mut ws, &t0);
+                    let sig = if v == Verdict::Differs { Some(signature(&mut ws, &t0).0) } else { None };
                     println!(
                         "{}",
-                        json!({"text": text, "t0": ty_json(&t0), "rendered": s, "t1": t1.as_ref().map(ty_json), "same": same,
-                               "dbg0": format!("{:?}", t0)})
+                        json!({"text": text, "t0": ty_json(&t0), "rendered": s, "t1": t1.as_ref().map(ty_json),
+                               "verdict": format!("{:?}", v), "signature": sig})
                     );
                 }
             }
         }
         _ => {
-            let _ = (ENV, BTreeMap::<u8, u8>::new(), HashSet::<u8>::new(), Rng::new(1));
+            let _ = ENV;
             eprintln!("usage: c17 corr|search|one|parse");
             std::process::exit(2);
         }
